@@ -63,6 +63,97 @@ def observe(text):
     return ("OK\t%d\t%s\t%d\t%d\t%d" % (count(ast), " ".join(trace), lines, hits["x"], hits["g"]), dump(ast, False))
 
 
+def cfg_classes():
+    """_c_ast.cfg read independently of _ast_gen.py: [(class, [(field, kind)])], kind in attr/child/seq"""
+    import os, re
+    import pycparser
+    out = []
+    for line in open(os.path.join(os.path.dirname(pycparser.__file__), "_c_ast.cfg")):
+        line = line.split("#")[0].strip()
+        m = re.match(r"^(\w+)\s*:\s*\[(.*)\]$", line)
+        if not m:
+            continue
+        fields = []
+        for f in [x.strip() for x in m.group(2).split(",") if x.strip()]:
+            if f.endswith("**"):
+                fields.append((f[:-2], "seq"))
+            elif f.endswith("*"):
+                fields.append((f[:-1], "child"))
+            else:
+                fields.append((f, "attr"))
+        out.append((m.group(1), fields))
+    return out
+
+
+def class_case(name, fields, present):
+    """the property's class-level clause on ONE class and ONE set of present node-valued fields;
+    returns None or a description of the deviation"""
+    from pycparser import c_ast
+
+    class S(c_ast.Node):
+        __slots__ = ("tag", "coord", "__weakref__")
+
+        def __init__(self, tag):
+            self.tag = tag
+            self.coord = None
+
+        def children(self):
+            return ()
+
+    cls = getattr(c_ast, name, None)
+    if cls is None:
+        return "class %s does not exist" % name
+    args, expect = [], []
+    objs = {}
+    for f, k in fields:
+        if k == "attr":
+            args.append("A_" + f)
+        elif f in present:
+            objs[f] = S(f) if k == "child" else [S(f + "0"), S(f + "1"), S(f + "2")]
+            args.append(objs[f])
+        else:
+            args.append(None)
+    for f, k in fields:
+        if k == "child" and f in present:
+            expect.append((f, objs[f]))
+    for f, k in fields:
+        if k == "seq" and f in present:
+            expect += [("%s[%d]" % (f, i), o) for i, o in enumerate(objs[f])]
+    co = object()
+    try:
+        inst = cls(*(args + [co]))            # positional: fields in cfg order, then coord
+    except Exception as e:
+        return "constructor does not accept the cfg's fields positionally followed by coord: %r" % e
+    if inst.coord is not co:
+        return "last positional argument is not coord"
+    for (f, k), a in zip(fields, args):
+        if getattr(inst, f, co) is not a:
+            return "field %s does not hold the argument given in its cfg position" % f
+    if list(cls.attr_names) != [f for f, k in fields if k == "attr"]:
+        return "attr_names %r are not the plain-value fields" % (cls.attr_names,)
+    ch = list(inst.children())
+    if [n for n, _ in ch] != [n for n, _ in expect] or any(a is not b for (_, a), (_, b) in zip(ch, expect)):
+        return "children() = %r, expected %r" % ([n for n, _ in ch], [n for n, _ in expect])
+    it = list(iter(inst))
+    if len(it) != len(expect) or any(a is not b for a, (_, b) in zip(it, expect)):
+        return "iteration yields %r, children() order is %r" % ([getattr(x, "tag", x) for x in it], [n for n, _ in expect])
+    return None
+
+
+def class_level(ctx):
+    import itertools
+    n = 0
+    for name, fields in cfg_classes():
+        nodef = [f for f, k in fields if k != "attr"]
+        for mask in itertools.product([False, True], repeat=len(nodef)):
+            present = [f for f, m in zip(nodef, mask) if m]
+            why = class_case(name, fields, present)
+            n += 1
+            if why:
+                ctx.violation("class %s with present node fields %r: %s" % (name, present, why), {"kind": "class", "class": name, "present": present})
+    return n
+
+
 def classify(replay):
     t = replay.get("text", "")
     return "F-align-attr-nodes" if ("_Alignas" in t or "_Pragma" in t) else None
@@ -70,7 +161,9 @@ def classify(replay):
 
 def run(ctx):
     texts = [t for t in progs.pool(ctx, scale=0.3) if len(t) < 6000]
-    ctx.rule("class-level part: 49 classes x every subset of absent node-valued fields, exhaustive, as kernel-checked obligations on regenerated observations; tree-level part: for the programs of the pool (" + progs.RULE + ") a counting NodeVisitor, a visitor overriding visit_BinaryOp/visit_Decl/visit_Compound and show() on the real AST vs the generic model")
+    ctx.rule("class-level part: 49 classes x every subset of absent node-valued fields, exhaustive, as kernel-checked obligations on regenerated observations and, to name a concrete failing class/field set, evaluated on the live classes against _c_ast.cfg read independently of _ast_gen.py (positional constructor order, attr_names, children() names/objects/order, iteration = children()); tree-level part: for the programs of the pool (" + progs.RULE + ") a counting NodeVisitor, a visitor overriding visit_BinaryOp/visit_Decl/visit_Compound and show() on the real AST vs the generic model")
+    ncls = class_level(ctx)
+    ctx.count(ncls, nontrivial_n=ncls)
     both = pmap(observe, texts)
     obs = [b[0] if b else None for b in both]
     # the real AST (dumped) is handed to the generic model: no dependence on the parser model
@@ -93,6 +186,11 @@ def run(ctx):
 
 
 def replay(ctx, payload):
+    if payload["input"].get("kind") == "class":
+        i = payload["input"]
+        why = class_case(i["class"], dict(cfg_classes())[i["class"]], i["present"])
+        print(why)
+        return why is None
     o = observe(payload["input"]["text"])[0]
     print(o)
     f = o.split("\t")
